@@ -2361,6 +2361,7 @@ func ruleVerdictBeforeWrites(r *Run) {
 			}
 			return false
 		}
+		var verdictCalls []*ssa.Call
 		isVerdict := func(x ssa.Instruction) bool {
 			ret, ok := x.(*ssa.Return)
 			if !ok {
@@ -2390,6 +2391,7 @@ func ruleVerdictBeforeWrites(r *Run) {
 						}
 					}
 					if !wraps {
+						verdictCalls = append(verdictCalls, call)
 						return true
 					}
 				}
@@ -2404,7 +2406,50 @@ func ruleVerdictBeforeWrites(r *Run) {
 				if !isWrite(in) {
 					continue
 				}
-				if p := findPath(f, in, nil, isVerdict, allEdges); p != nil && witness == nil {
+				verdictCalls = nil
+				p := findPath(f, in, nil, isVerdict, allEdges)
+				if p == nil {
+					continue
+				}
+				// a receiver of a stream judges one element per iteration: a verdict made inside the receive loop
+				// before anything of the current element was written refuses that element and ends the stream —
+				// the writes it follows belong to earlier, complete elements
+				streamed := len(verdictCalls) > 0
+				for _, vc := range verdictCalls {
+					// the block of a verdict that is followed by `break` is not part of the natural loop (it cannot
+					// reach the back edge): the loop is the write's, and the verdict is made under its header
+					h, set, _ := innermostLoop(f, in.Block())
+					if set == nil || !h.Dominates(vc.Block()) {
+						streamed = false
+						continue
+					}
+					// the verdict belongs to the loop: it is reached from a block of the loop directly
+					inBody := false
+					for _, pr := range vc.Block().Preds {
+						if set[pr] {
+							inBody = true
+						}
+					}
+					if !inBody && !set[vc.Block()] {
+						streamed = false
+						continue
+					}
+					var head ssa.Instruction
+					for _, x := range h.Instrs {
+						if _, isPhi := x.(*ssa.Phi); !isPhi {
+							head = x
+							break
+						}
+					}
+					sameIteration := findPath(f, in, func(y ssa.Instruction) bool { return y == head }, func(y ssa.Instruction) bool { return y == ssa.Instruction(vc) }, allEdges)
+					if sameIteration != nil {
+						streamed = false
+					}
+				}
+				if streamed {
+					continue
+				}
+				if witness == nil {
 					witness, first = p, in
 				}
 			}
